@@ -16,9 +16,11 @@ import (
 	"os"
 	"os/exec"
 	"regexp"
+	"runtime"
 	"strconv"
 	"strings"
 	"sync"
+	"sync/atomic"
 
 	"cvssmc/internal/ev"
 	"cvssmc/internal/scen"
@@ -37,7 +39,12 @@ func child(i, n int) {
 	var ops int64
 	var mism []string
 	var mu sync.Mutex
-	scs := append(append(scen.Pairs(), scen.Triples()...), scen.QueryTriples()...)
+	scs := append(append(append(scen.Pairs(), scen.Triples()...), scen.QueryTriples()...), scen.Bulk()...)
+	// free-running build: the driver's pause between an export and draining its reader lets other
+	// goroutines run; unsupported metric names are new to the process in every call
+	scen.Pause = runtime.Gosched
+	var fresh int64
+	scen.FreshName = func() string { return "Z" + strconv.FormatInt(atomic.AddInt64(&fresh, 1), 36) }
 	done := 0
 	for k, sc := range scs {
 		if k%n != i {
